@@ -44,6 +44,8 @@ ANCHORS = [
     "flow.record.stream:RecordStreamReader.readheader",
 ]
 
+KNOWN_CLASS_TYPES = ("net.ipaddress", "net.IPAddress", "dynamic")
+
 VARIANTS = [
     {"name": "minimal"},
     {"name": "nonminimal", "nonminimal": True},
@@ -171,7 +173,12 @@ def execute(ctx, case):
 
     focus = (case["t"], case["vc"]) if "t" in case else None
     small = bool(focus and case["vc"] == "extreme")
-    records = workload.build_sequence(case["s"], thorough=not ctx.quick, focus=focus, small=small, n_records=(2 if small else None))
+    types = None
+    if k == "ref":
+        # value classes owned by the C01/C02 known findings cannot be expressed by the reference encoder either: keep
+        # their field types out of 'ref' sequences unless the type itself is the focus of the case
+        types = [t for t in gen.ALL_FIELD_TYPES if not t.startswith(KNOWN_CLASS_TYPES) or (focus and t == focus[0])]
+    records = workload.build_sequence(case["s"], thorough=not ctx.quick, focus=focus, small=small, n_records=(2 if small else None), types=types)
     written = [observe.obs(r) for r in records]
 
     if k == "impl":
@@ -214,9 +221,10 @@ def execute(ctx, case):
         return
     opts = {kk: vv for kk, vv in variant.items() if kk not in ("name", "concat")}
     if opts.get("bare_identifier") and same_name_types(written):
-        # old-style streams identify a type by its bare name: two types of one name cannot live in such a stream
-        ctx.event("ref_skipped_bare_identifier_with_same_name_types")
-        return
+        # old-style streams identify a type by its bare name: two types of one name cannot live in such a stream;
+        # encode this sequence with full identifiers instead
+        ctx.event("ref_bare_identifier_not_applicable_(same_name_types)_fell_back_to_full_identifiers")
+        opts = {kk: vv for kk, vv in opts.items() if kk != "bare_identifier"}
     rng = random.Random(case["s"] ^ 0x5EED)
     expected = [observe.normalise(o) for o in written]
     if variant.get("concat"):
@@ -261,3 +269,13 @@ def finish(ctx):
     ctx.require(ctx.notes.get("oracle_selfcheck_failures", 0) == 0, "reference encoder/decoder self-check failed: the oracle is not trustworthy")
     if ctx.evaluations:
         ctx.require(ctx.events.get("impl_streams", 0) > 0 or ctx.events.get("ref_streams", 0) > 0 or ctx.events.get("golden_streams", 0) > 0, "no stream was decoded")
+
+
+def post_merge(merged, args):
+    want = {"impl/%s/%s" % (t, vc) for t, vc in gen.all_cells()} | {"ref/%s/%s" % (t, vc) for t, vc in gen.all_cells() if vc != "extreme"}
+    # 'ref' cells whose forced value belongs to a known-finding class are skipped by design (hostile addresses / dynamic paths)
+    missing = sorted(c for c in want - set(merged["cells"]) if not (c.startswith("ref/") and c.split("/")[1].startswith(KNOWN_CLASS_TYPES)))
+    merged["notes"]["matrix_cells_missing"] = missing[:20]
+    if missing and merged["evaluations"]:
+        return ["coverage matrix not completely hit: %d cells missing, e.g. %s" % (len(missing), missing[:3])]
+    return []
